@@ -621,6 +621,9 @@ def check(run):
     run.floor('C19-R4', 20, 'obligations')
     run.extra['elements'] = len(elements)
     run.extra['isotopes'] = len(isotopes)
+    # lines are stored in the repository under the key encode_transition builds (lower-cased levels), species under their symbol / charge
+    run.include('C06', {'cherab/openadas/repository/utility.py'},
+                'species and lines work as keys of the atomic-data repository through encode_transition / valid_charge')
     from ..cachekey import check_caches
     check_caches(run, [m_ for m_ in prog.modules.values() if not m_.name.endswith('#pxd')], 'C19-K', prog=prog)
 
